@@ -118,8 +118,24 @@ func (r *Run) CheckHealth(where string) {
 		}
 		r.Failf("deadlock", "", "%s: nothing can run and tasks are blocked on %v", where, names)
 	}
+	if r.W.Livelocked {
+		// the workload was over: only goroutines of the code under test (and the
+		// kernel actors feeding them) were running, and they never came to rest
+		var busy []string
+		for _, t := range r.W.LiveTasks() {
+			busy = append(busy, t.Name+":"+t.PendingKind())
+		}
+		r.Failf("livelock", "", "%s: after the workload ended the goroutines of the library did not come to rest within the step budget (%d steps, %v of simulated time allowed for timers); still running: %v", where, r.W.Step, sched.QuiesceHorizon, busy)
+	}
 	if r.W.Overrun {
 		r.Discard = "step budget exceeded"
+		if os.Getenv("VERIF_DEBUG_DISCARD") != "" {
+			var busy []string
+			for _, t := range r.W.LiveTasks() {
+				busy = append(busy, t.Name+":"+t.PendingKind())
+			}
+			fmt.Fprintf(os.Stderr, "discard at %s step %d now %v live %v\n", where, r.W.Step, r.W.Now(), busy)
+		}
 		panic(abortRun{})
 	}
 }
